@@ -68,6 +68,8 @@ structure Data where
   resolved : Nat := 0
   rejected : Bool := false    -- whenAll: rejected; whenAny: done
   results : List (Nat × Int) := []   -- whenAll: (index, value)
+  inputs : List Nat := []            -- ghost (never read by `step`): the argument promises, in argument order
+  anyKind : Bool := false            -- ghost (never read by `step`): created by whenAny
   deriving DecidableEq, Repr
 
 inductive Ev
@@ -261,14 +263,14 @@ def exec (m : M) : Op → M × OpOut
   | .whenAll ps =>
     let (m1, w) := m.newCore
     let d := m1.datas.length
-    let m2 : M := { m1 with datas := m1.datas ++ [({ target := w, total := ps.length } : Data)] }
+    let m2 : M := { m1 with datas := m1.datas ++ [({ target := w, total := ps.length, inputs := ps, anyKind := false } : Data)] }
     let m3 := { m2 with stack := (ps.zipIdx.map fun (pi : Nat × Nat) => Act.attach pi.1 ({ kind := .allInput d pi.2, chain := 0 } : Req)) ++ m2.stack }
     let (m4, thrown) := settleDown m3
     (m4, if thrown then .thrown else .created w)
   | .whenAny ps =>
     let (m1, w) := m.newCore
     let d := m1.datas.length
-    let m2 : M := { m1 with datas := m1.datas ++ [({ target := w, total := ps.length } : Data)] }
+    let m2 : M := { m1 with datas := m1.datas ++ [({ target := w, total := ps.length, inputs := ps, anyKind := true } : Data)] }
     let m3 := { m2 with stack := (ps.map fun (p : Nat) => Act.attach p ({ kind := .anyInput d, chain := 0 } : Req)) ++ m2.stack }
     let (m4, thrown) := settleDown m3
     (m4, if thrown then .thrown else .created w)
